@@ -182,6 +182,7 @@ def run():
     thorough = tier() == "thorough"
     n = 6 if thorough else 5
     ops = ["k1", "p1", "p2", "t1", "t3"] if not thorough else ["k1", "p1", "p2", "t1", "t2", "t3"]
+    dumps = []
     for i, table in enumerate(TABLES):
         mod = work.path(f"MC_Resolve{i}.tla")
         rows = " @@ ".join(f"({to_tla(p)} :> {to_tla(tuple(b))})" for p, b in table.items())
@@ -192,9 +193,10 @@ def run():
         dump = work.path(f"r{i}.dump")
         t = run_tlc(str(mod), str(cfg), work, dump=dump, timeout=3000, tag=f"resolve{i}")
         res.add_tlc(f"Resolve: substitution lemma on every expression <= {n} tokens over {ops} with package table {table}", t)
-        with mp.get_context("fork").Pool(16) as pool:
-            merge(res, pool.map(_worker, [(str(dump), table, k, 16, seed()) for k in range(16)]))
-        dump.unlink()
+        dumps.append((str(dump), table))
+    # one pool for all tables: every worker process (one long-lived resolver) sees several different package tables in turn
+    with mp.get_context("fork").Pool(16) as pool:
+        merge(res, pool.map(_worker, [(d, table, k, 16, seed()) for k in range(16) for d, table in dumps], chunksize=1))
     res.coverage["traces_validated_against_impl"] = res.coverage.get("resolutions", 0)
     res.coverage["evaluations"] = res.coverage.get("resolutions", 0)
     res.coverage["exhaustive"] = True
